@@ -291,7 +291,7 @@ func (c *Ctx) ReconcilerShape(ob *core.Obligation, r *Roles) {
 			// equalities must hold where that pointer is given a non-nil value
 			if ld, ok := core.Strip(recv).(*ssa.UnOp); ok {
 				if fa, ok := ld.X.(*ssa.FieldAddr); ok {
-					if ph, ok := fa.X.(*ssa.Phi); ok {
+					if ph, ok := fa.X.(*ssa.Phi); ok && !(srcEq && dstEq) {
 						srcEq, dstEq = true, true
 						for i, e := range ph.Edges {
 							if core.IsNilConst(e) {
